@@ -123,6 +123,8 @@ def solver_queries(tree, annos, tag):
         mn, mx = s.min(e), s.max(e)
         ev = s.eval(e, 1 << min(w, 10))
     except Exception as ex:  # noqa
+        if type(ex).__name__ == "ClaripyZeroDivisionError":
+            return None      # a division by an abstract zero: exempt
         return ("C24/SolverVSA/err:%s" % type(ex).__name__, "%s: %r" % (vx.show(tree), ex))
     if mn > vals[0]:
         return ("C24/SolverVSA/min-too-large", "%s with %s: min() = %d but the value %d occurs" % (vx.show(tree), [vsa.show(t) for t in annos], mn, vals[0]))
@@ -154,6 +156,8 @@ def sat_query(conds, annos, tag):
             s.add(b)
         ok = s.satisfiable()
     except Exception as ex:  # noqa
+        if type(ex).__name__ == "ClaripyZeroDivisionError":
+            return None
         return ("C24/SolverVSA/satisfiable/err:%s" % type(ex).__name__, repr(ex))
     if not ok:
         return ("C24/SolverVSA/satisfiable-false-with-model", "%s with %s has a model but satisfiable() is False" % (
@@ -261,15 +265,24 @@ def run(ctx):
             continue
         if r:
             fails[r[0]].append((vx.size(tree), r[1], annos, tree))
+        # SolverVSA answers come from the same abstract values: a wrong answer on an expression whose conversion is
+        # already unsound is the same finding (same signature); otherwise it is a finding of the frontend itself
         if not vx.is_bool(tree) and i % 3 == 0:
             q = solver_queries(tree, annos, "q%d" % i)
             if q:
-                fails[q[0]].append((vx.size(tree), q[1], annos, tree))
+                sig = r[0] if r else q[0]
+                fails[sig].append((vx.size(tree), q[1] + ("  (consequence of the unsound conversion)" if r else ""), annos, tree))
         if vx.is_bool(tree):
             extra = [vx.gen_bool(ctx.rng, [t[0] for t in annos], 1)] if ctx.rng.random() < 0.5 else []
             q = sat_query([tree] + extra, annos, "s%d" % i)
             if q:
-                fails[q[0]].append((vx.size(tree), q[1], annos, tree))
+                cause = r
+                for c in extra:
+                    if not cause:
+                        rc = analyse(c, annos, "x%d" % i)
+                        cause = rc if rc and rc != "skip" else None
+                sig = cause[0] if cause else q[0]
+                fails[sig].append((vx.size(tree), q[1] + ("  (consequence of the unsound conversion)" if cause else ""), annos, tree))
     for sig, lst in sorted(fails.items()):
         sz, what, annos, tree = min(lst, key=lambda c: (c[0], len(c[1])))
         ctx.violation(sig, what + "  [%d case(s)]" % len(lst), {"annos": [list(t) for t in annos], "tree": tree})
